@@ -62,7 +62,12 @@ def check(run, F, tier):
                 sts = sorted(conn.status_at_entry(F, p))
                 ns = sorted(conn.bool_field_at_entry(F, p, "need_store"))
                 op = sorted(conn.bool_field_at_entry(F, p, "offline_publish"))
-                dropped.setdefault("status=%s/need_store=%s/offline_publish=%s" % (",".join(sts), ns, op), p)
+                # one case per (status, need_store, offline_publish) cell: how the code happens to group the cells into paths
+                # (one test on `status != Connected`, or a match with one arm per status) must not change the identity of the case
+                for st_ in sts:
+                    for n_ in ns:
+                        for o_ in op:
+                            dropped.setdefault("status=%s/need_store=%s/offline_publish=%s" % (st_, n_, o_), p)
         for k, p in sorted(dropped.items()):
             r1.violation("%s/%s" % (f["name"], k), "%s accepts a QoS>0 PUBLISH (no error event) but neither stores nor sends it when %s" % (f["name"], k),
                          conn.path_summary(p), site="%s:%s" % (f["file"], f["line"]))
